@@ -99,6 +99,23 @@ func runC19(c *core.Ctx) {
 		ws := writeCalls(c, fn, writers)
 		eng.Dominates(c, "C19.install-once", fn, g, ir.CallSinks(ws, "storage-writing call"), "storage writes", nil)
 		eng.Dominates(c, "C19.second-attempt-fails", fn, g, ir.SuccessSinks(fn), "success return", nil)
+		// the marker the guard reads must be written on every successful installation:
+		// some Put of a shape the guard reads lies, at every level of its call chain,
+		// on every path to that level's success return.
+		markerOK, markerWhy := false, "no unconditional write of the guarded key"
+		for _, chk := range checks {
+			for _, p := range puts {
+				if !p.Shape.Unifies(chk.Shape) {
+					continue
+				}
+				if ok, why := chainUnconditional(p.Chain); ok {
+					markerOK, markerWhy = true, "marker "+p.Shape.Canon()+" written on every success path"
+				} else if !markerOK {
+					markerWhy = "marker " + p.Shape.Canon() + ": " + why
+				}
+			}
+		}
+		c.Decide(markerOK, "C19.marker-always-written", fn, "the key the installed-check reads is written by every successful SyncGenesisHeader", c.P.Rel(fn.Pos()), markerWhy)
 		// boolean wrappers
 		for k := range checks {
 			cl, ok := k.(*ssa.Call)
@@ -120,6 +137,35 @@ func runC19(c *core.Ctx) {
 			proveBoolWrapper(c, w)
 		}
 	}
+}
+
+// chainUnconditional: at every level of the call chain, the call lies on
+// every path from the function entry to each of its success returns.
+func chainUnconditional(chain []ssa.CallInstruction) (bool, string) {
+	for _, call := range chain {
+		f := call.Parent()
+		for f.Parent() != nil { // closure: judge the enclosing function conservatively
+			return false, "write happens inside a closure in " + ir.FuncName(f)
+		}
+		r := ir.NewReach(f)
+		r.Barrier[call] = true
+		r.Run(nil)
+		sinks := ir.SuccessSinks(f)
+		if f.Signature.Results().Len() == 0 {
+			sinks = nil
+			for _, b := range f.Blocks {
+				if ret, ok := b.Instrs[len(b.Instrs)-1].(*ssa.Return); ok {
+					sinks = append(sinks, ir.Sink{Instr: ret})
+				}
+			}
+		}
+		for _, s := range sinks {
+			if r.SinkReachable(s) {
+				return false, "in " + ir.FuncName(f) + " a success return is reachable without executing the write (line " + sprintf("%d", f.Prog.Fset.Position(call.Pos()).Line) + " is conditional)"
+			}
+		}
+	}
+	return true, ""
 }
 
 // proveBoolWrapper: w returns (false, nil-able error) only when an inner read returned nil.
